@@ -7,6 +7,7 @@ From Coq Require Import NArith List Bool Arith.
 Import ListNotations.
 Require Import EmbossV.Lex.Regex EmbossV.Lex.Tokenizer EmbossV.Lex.Spec EmbossV.Lex.Format.
 Require Import EmbossV.Lex.Proofs_Line EmbossV.Lex.Proofs_Examples EmbossV.Lex.Proofs_Format.
+Require Import EmbossV.Lex.FmtModel EmbossV.Lex.FmtProofs.
 
 Theorem fmt_equivb_spec : forall T o f, fmt_equivb T o f = true <-> fmt_equiv T o f.
 Proof. exact fmt_equivb_spec_proof. Qed.
@@ -63,3 +64,70 @@ Proof. exact sanity_text_example_proof. Qed.
 Theorem retokenize_line_partial : forall T ln L ts,
   line_toks T ln 0 L ts <-> tokenize_line T ln L = LOk ts.
 Proof. exact retokenize_line_proof. Qed.
+
+(* ------------------------------------------------------------------------------------------------
+   Handler level (Lex/FmtModel.v): an executable model of format_emb.py whose table production ->
+   handler is regenerated from the source on every run (harness/fmt_x.py) and whose output is compared
+   with format_emboss_parse_tree character for character.  [ws] is Python's str.isspace, [iw] the
+   indent width, [tbl] the handler table; the instance theorems on the regenerated table are in the
+   generated file FmtHInstance_C11.v (inst_table_toks_ok: by computation over the production list).
+   ------------------------------------------------------------------------------------------------ *)
+
+(* one handler: the tokens of its result are the tokens of its arguments as listed by the static
+   analysis [etoks] (each DSL construct and each shared combinator -- _columnize, _intersperse, comment
+   stripping, blank-line insertion, rendering, rstrip -- neither drops, duplicates nor reorders tokens) *)
+Theorem eval_preserves_tokens : forall ws iw args e v l,
+  eval ws iw args e = Some v -> etoks (length args) e = Some l -> vtoks ws v = astoks ws args l.
+Proof. exact eval_toks. Qed.
+
+(* ALL parse trees, no size bound: if every handler of the table passes the static check, the
+   (symbol, stripped text) sequence of the tokens in the formatter's result is that of the tree *)
+Theorem format_preserves_tokens : forall ws iw tbl, table_toks_ok tbl = true ->
+  forall t v, format ws iw tbl t = Some v -> vtoks ws v = tree_toks ws tbl t.
+Proof. exact format_toks. Qed.
+
+(* the rendered TEXT is a concatenation of pieces whose token pieces, in order, are the tree's tokens *)
+Theorem format_text_preserves_tokens : forall ws iw tbl, table_toks_ok tbl = true ->
+  forall t s, format_text ws iw tbl t = Some s ->
+  exists g, format ws iw tbl t = Some (VStr g) /\ flat g = s /\ gtoks ws g = tree_toks ws tbl t.
+Proof. exact format_text_toks. Qed.
+
+(* for trees built from the table's productions [tree_toks] is simply the list of leaves, left to
+   right, without Indent / Dedent / "\n" and white-space-only tokens *)
+Theorem format_preserves_leaves : forall ws iw tbl, table_toks_ok tbl = true -> droppable_terminal tbl = true ->
+  forall t v, tree_wf tbl t -> (forall s, root_sym tbl t = Some s -> droppable s = false) ->
+  format ws iw tbl t = Some v -> vtoks ws v = leaf_toks ws t.
+Proof.
+  exact (fun ws iw tbl H1 H2 t v Hw Hr Hf =>
+           eq_trans (format_toks ws iw tbl H1 t v Hf) (tree_toks_leaves ws tbl H2 t Hw Hr)).
+Qed.
+
+(* never fails, PARTIAL: proved for the string fragment of the handler language (the handlers of all
+   expression, type-reference, name, attribute-value ... productions: str_handler; 181 of the 224
+   productions of the current table).  Missing for the full statement: a typing of the row/block
+   handlers (values of type list-of-rows / list-of-blocks / field-location pair, rows with at most
+   one column at render time, at most two header kinds per _columnize call, non-empty `if` bodies)
+   and the exclusion of `doc-line -> doc Comment eol` trees, on which format_emb.py itself asserts. *)
+Theorem format_total_strings_partial : forall ws iw tbl t,
+  str_tree tbl t = true -> exists g, format ws iw tbl t = Some (VStr g).
+Proof. exact format_total_strings. Qed.
+
+(* idempotence, PARTIAL: the three whole-file normalisation passes and rstrip are idempotent; missing:
+   parse (render rows) gives back the same rows, and _columnize of already aligned rows *)
+Theorem indent_blanks_idempotent_partial : forall l,
+  indent_blanks_and_comments (indent_blanks_and_comments l) = indent_blanks_and_comments l.
+Proof. exact indent_blanks_idem. Qed.
+
+Theorem add_blank_rows_idempotent_partial : forall l,
+  add_blank_rows_on_dedent (add_blank_rows_on_dedent l) = add_blank_rows_on_dedent l.
+Proof. exact add_blank_rows_idem. Qed.
+
+Theorem rstrip_idempotent_partial : forall ws g, grstrip ws (grstrip ws g) = grstrip ws g.
+Proof. exact grstrip_idem. Qed.
+
+Example toy_fmt_example :
+  table_toks_ok toy_fmt_table = true /\ droppable_terminal toy_fmt_table = true /\
+  tree_wf toy_fmt_table toy_tree /\
+  format_text toy_ws 2 toy_fmt_table toy_tree = Some [120; 32; 32; 121]%N /\
+  leaf_toks toy_ws toy_tree = [([88], [120]); ([89], [121])]%N.
+Proof. exact toy_fmt_example_proof. Qed.
